@@ -744,8 +744,8 @@ func runOne(m *mon.M, plan *runPlan, logger *log.Logger, watch *logWatch, sdb st
 	if qiE != nil {
 		qiE.attach(r.chain)
 	}
-	verifhookSet(cr.sch.at)
-	defer verifhookSet(nil)
+	core.VerifSetHook(cr.sch.at)
+	defer core.VerifSetHook(nil)
 	const wd = 90 * time.Second
 
 	hang := func(what string) bool {
@@ -887,8 +887,8 @@ func TestC19Conc(t *testing.T) {
 	nRuns := m.N(60, 3000)
 	opsPerRun := 400
 	m.Rule(fmt.Sprintf("%d runs x ~%d operations by 4-16 goroutines (AddLocal/AddRemote(s)/AddRemotesSync with valid, gapped, stale, replacing, underpriced, over-balance and over-gas-limit transactions; "+
-		replacements priced/gassed to become the sender's costliest tx; "+
-		"SetGasPrice; head events with mined transactions, balance changes, base-fee and gas-limit changes, and (30% of heads) a balance or block gas limit at the boundary "+
+		"replacements priced/gassed to become the sender's costliest tx; "+
+		"SetGasPrice; head events with mined transactions, balance changes, base-fee and gas-limit changes, and (30%% of heads) a balance or block gas limit at the boundary "+
 		"(c1-1, c1, c2-1 / g1-1, g1) of the costs / gas of the currently pooled transactions; reorgs 1-3 deep that resurrect transactions; read API calls; Qi add/remove when available) "+
 		"on a pool with AccountSlots 2, GlobalSlots 6, AccountQueue 2, GlobalQueue 6, PriceBump 10; verifhook delays in 6 patterns; 4 quiescent points per run; "+
 		"distinct = distinct (run, hook-hit-order hash) pairs", nRuns, opsPerRun))
